@@ -126,6 +126,7 @@ func (r *reloader) reload(conf *config.Config) error {
 		if err != nil {
 			return err
 		}
+		integrations = verifWrapIntegrations(r, rcv, integrations)
 		// rcv.Name is guaranteed to be unique across all receivers.
 		receivers[rcv.Name] = integrations
 		integrationsNum += len(integrations)
@@ -174,6 +175,7 @@ func (r *reloader) reload(conf *config.Config) error {
 	if r.peer != nil {
 		pipelinePeer = r.peer
 	}
+	pipelinePeer = verifPipelinePeer(r, pipelinePeer)
 
 	pipeline := r.pipelineBuilder.New(
 		receivers,
